@@ -1104,6 +1104,13 @@ func c15Personal(c *Ctx) {
 						by = &tests[i]
 					}
 				}
+				// or a flag that can only be true through not-exist tests
+				// (missing := IsNotExist(err); missing = missing || IsNotExist(cause); if missing ...)
+				if by == nil && d.Then {
+					if t := c15FlagOfTests(d.If().Cond, tests, "notexist", map[ssa.Value]bool{}, 0); t != nil {
+						by = t
+					}
+				}
 			}
 			if by == nil {
 				r.Bad("O-5", key, c.P.Pos(ret.Pos()), "(main, nil) is returned after a notebook failure without a not-exist test: a broken notebook is silently ignored")
@@ -1122,4 +1129,52 @@ func c15Personal(c *Ctx) {
 	r.Floor("O-5", "tolerating exits", nTol, 1)
 	r.Check(anyEffective, "O-5", fk+"#missing-notebook-detected", c.P.Pos(persC.Pos()), "at least one not-exist test is effective on the wrapped error", "every not-exist test is ineffective on the wrapped error types: a merely absent notebook makes loading fail")
 	_ = interval.Iv{}
+}
+
+// c15FlagOfTests: the boolean v can be true only because one of the tests of
+// the given class was true (a merge of test results, false constants and
+// short-circuit `||` / `&&` chains of them). Returns a representative test —
+// an effective one if any contributes — or nil.
+func c15FlagOfTests(v ssa.Value, tests []errClassTest, class string, seen map[ssa.Value]bool, d int) *errClassTest {
+	if d > 12 {
+		return nil
+	}
+	for i := range tests {
+		if tests[i].class == class && tests[i].cond == v {
+			return &tests[i]
+		}
+	}
+	ph, ok := v.(*ssa.Phi)
+	if !ok {
+		return nil
+	}
+	if seen[ph] {
+		return &errClassTest{class: class, why: "the flag's own earlier value"}
+	}
+	seen[ph] = true
+	var best *errClassTest
+	for k, e := range ph.Edges {
+		if ssau.IsConstBool(e, false) {
+			continue
+		}
+		var t *errClassTest
+		if ssau.IsConstBool(e, true) {
+			// short-circuit: the edge is the true side of an earlier flag test
+			p := ph.Block().Preds[k]
+			iff, isIf := p.Instrs[len(p.Instrs)-1].(*ssa.If)
+			if !isIf || p.Succs[0] != ph.Block() {
+				return nil
+			}
+			t = c15FlagOfTests(iff.Cond, tests, class, seen, d+1)
+		} else {
+			t = c15FlagOfTests(e, tests, class, seen, d+1)
+		}
+		if t == nil {
+			return nil
+		}
+		if best == nil || (t.effective && !best.effective) {
+			best = t
+		}
+	}
+	return best
 }
